@@ -568,11 +568,19 @@ def BCall.keys : BCall → List (List Nat)
 
 /-- ```
 if _INVALIDATE_FURTHER.get() and cmd in RETRIEVE_CMDS:          # {GET, INCR, GET_MANY, GET_MATCH}
-    if "key" in kwargs:        await backend.delete(kwargs["key"]);            return kwargs.get("default")
-    if cmd == GET_MATCH:       await backend.delete_match(kwargs["pattern"]);  return _aiter()
-    if cmd == GET_MANY:        await backend.delete_many(*args);               return ()
+    if "key" in kwargs:
+        if not backend.is_disable(Command.DELETE): await backend.delete(kwargs["key"])
+        return kwargs.get("default")
+    if cmd == GET_MATCH:
+        if not backend.is_disable(Command.DELETE_MATCH): await backend.delete_match(kwargs["pattern"])
+        return _aiter()
+    if cmd == GET_MANY:
+        if not backend.is_disable(Command.DELETE_MANY): await backend.delete_many(*args)
+        return ()
 ```
-the command issued instead and the answer (`get` and `incr` are called with `key=`; `incr` has no
+(fix D46: the deletion is handed to the backend directly, so the middleware asks the control state of the
+DELETING command itself; the read is answered as a miss either way).
+The command issued instead and the answer (`get` and `incr` are called with `key=`; `incr` has no
 `default`, hence `None`) -/
 def invalidateOf : Cmd → Option (Cmd × Res)
   | .get => some (.delete, .dflt)
@@ -598,7 +606,7 @@ def runChain (w : World) (c : Nat) (inv : Bool) (tg : Target) (cmd : Cmd) (keys 
       (r.1, .init tg :: r.2.1, r.2.2)
   | .invalidate :: rest, ini, n =>
     match (if inv then invalidateOf cmd else none) with
-    | some (del, res) => (res, [.cmd ⟨tg, del, keys⟩], ini)
+    | some (del, res) => (res, if isDisable w c tg.ctl [del] then [] else [.cmd ⟨tg, del, keys⟩], ini)
     | none => runChain w c inv tg cmd keys rest ini n
   | .callbacks :: rest, ini, n => runChain w c inv tg cmd keys rest ini n
 
